@@ -123,6 +123,14 @@ func genC10(t *rapid.T) c10Case {
 		other = &og
 	}
 	calls := callsFor(mg, g.Root, false)
+	if rootOnly {
+		// ExpandSchemaWithBasePath with caller options that name no base: the root comes from a pre-filled cache
+		for _, c := range append([]elemCall{}, calls...) {
+			if c.Entry == "ExpandSchemaWithBasePath" {
+				calls = append(calls, elemCall{Entry: c.Entry, Root: "preloaded", Elem: c.Elem})
+			}
+		}
+	}
 	if !rootOnly {
 		// multi-document graphs with relative $refs: only the base-location entry points apply
 		var kept []elemCall
